@@ -14,5 +14,5 @@ def plan(tier, seed):
 
 
 def required(tier, classes, records):
-    pats = [("box wall", r"wall:box"), ("slanted wall", r"wall:slant"), ("polygon wall", r"wall:poly"), ("clockwise input", r"-cw"), ("orthogonal", r"\|orth\|"), ("non-orthogonal", r"\|nonorth\|"), ("no guards", r"\|g0\|"), ("guards", r"\|g[1-9]\|"), ("double null", r"^(cdn|ldn|udn)")]
+    pats = [("box wall", r"wall:box"), ("slanted wall", r"wall:slant"), ("polygon wall", r"wall:poly"), ("clockwise input", r"-cw"), ("orthogonal", r"\|orth\|"), ("non-orthogonal", r"\|nonorth\|"), ("no guards", r"\|g0\|"), ("non-orthogonal without guard cells (contours must be extended to reach the wall)", r"\|nonorth\|.*\|g0\|"), ("guards", r"\|g[1-9]\|"), ("double null", r"^(cdn|ldn|udn)")]
     return need_classes(classes, pats)
